@@ -12,7 +12,7 @@
 (*   {"k":"add","s":s}                                                     *)
 (*   {"k":"push","s":s,"wake":b}    source s makes its next item available *)
 (*   {"k":"close","s":s,"wake":b}   source s ends                          *)
-(*   {"k":"poll","r":"item","s":s,"n":j,"wake":b} | "pending" | "done"     *)
+(*   {"k":"poll","r":"item","src":s,"n":j,"wake":b} | "pending" | "done"   *)
 (* wake = the task's waker was woken during the call.                      *)
 (***************************************************************************)
 EXTENDS Naturals, Sequences, FiniteSets, TLC, Json, IOUtils
@@ -55,9 +55,9 @@ Step(e) ==
        /\ UNCHANGED <<pad, n, att, sent, got, byp>>
     \/ /\ e.k = "poll" /\ e.r = "item"
        \* the next item of an attached source, nothing else: own order, no duplicate, no fabrication
-       /\ e.s \in S /\ att[e.s] = "att" /\ e.n = got[e.s] + 1 /\ e.n <= sent[e.s]
-       /\ got' = [got EXCEPT ![e.s] = e.n]
-       /\ byp' = [s \in S |-> IF s = e.s THEN 0 ELSE IF Deliverable(s) THEN byp[s] + 1 ELSE 0]
+       /\ e.src \in S /\ att[e.src] = "att" /\ e.n = got[e.src] + 1 /\ e.n <= sent[e.src]
+       /\ got' = [got EXCEPT ![e.src] = e.n]
+       /\ byp' = [s \in S |-> IF s = e.src THEN 0 ELSE IF Deliverable(s) THEN byp[s] + 1 ELSE 0]
        /\ idle' = FALSE
        /\ UNCHANGED <<pad, n, att, sent, closed>>
     \/ /\ e.k = "poll" /\ e.r = "pending"
